@@ -220,7 +220,7 @@ def run(prop, tier, seed):
             propfail.append((h, got, want, cls, want_cls, gerr))
             continue
         mwant = transcript_from_events(mev, mend)
-        if mwant != got or mend != send:
+        if (mwant != got and not loose_pattern(mev).match(got)) or mend != send:
             corr.append((h, got, mwant, mend))
     seen = set()
     for h, got, want, cls, want_cls, gerr in propfail[:20]:
